@@ -112,6 +112,10 @@ func (m *C05) After(w *world.World, a *world.Action) {
 	switch {
 	case a.Kind == "user-mt-mint":
 		for _, d := range ds {
+			if d.delta.Sign() > 0 && world.IsVoucherClass(d.tok.Class) {
+				violate(w, m.R, "voucher-units-minted-without-delivered-packet", map[string]string{"by": "user-mint"}, fmt.Sprintf("%v", d))
+				return
+			}
 			if d.delta.Sign() > 0 && !world.IsVoucherClass(d.tok.Class) {
 				if m.native[d.tok] == nil {
 					m.native[d.tok] = new(big.Int)
